@@ -202,6 +202,7 @@ pub struct Dir {
     pub inject_read_err: bool,
     pub inject_write_err: bool,
     pub deliveries: u32,
+    pub first_frame_seen: bool,
 }
 
 #[derive(Default, Debug)]
@@ -252,6 +253,14 @@ pub struct Net {
 }
 
 pub type Shared = Arc<Mutex<Net>>;
+
+thread_local! {
+    /// harness probe called (with the stream id) when h3 hands its first frame on a stream to the transport (send_data)
+    static FIRST_WRITE_HOOK: std::cell::RefCell<Option<Box<dyn Fn(u64)>>> = const { std::cell::RefCell::new(None) };
+}
+pub fn set_first_write_hook(h: Option<Box<dyn Fn(u64)>>) {
+    FIRST_WRITE_HOOK.with(|x| *x.borrow_mut() = h);
+}
 
 fn wake(w: &mut Option<Waker>) {
     if let Some(w) = w.take() {
@@ -942,6 +951,16 @@ impl quic::SendStream<SimBuf> for SimSend {
         if self.writing.is_some() {
             self.net.lock().unwrap().contract.push(format!("stream {}: send_data while a write is unfinished", self.id));
             return Err(StreamErrorIncoming::ConnectionErrorIncoming { connection_error: ConnectionErrorIncoming::InternalError("overlapping send_data".into()) });
+        }
+        let first = self.net.lock().unwrap().dirs.get(&(self.id, self.side)).map(|d| d.sent.is_empty() && !d.first_frame_seen).unwrap_or(false);
+        if first {
+            self.net.lock().unwrap().dirs.get_mut(&(self.id, self.side)).unwrap().first_frame_seen = true;
+            // the moment h3 commits its first frame on this stream to the transport
+            FIRST_WRITE_HOOK.with(|h| {
+                if let Some(f) = h.borrow().as_ref() {
+                    f(self.id)
+                }
+            });
         }
         self.writing = Some(d.into());
         Ok(())
